@@ -46,6 +46,17 @@ CLAIMED["C11"] = ("other",
     "Library internals (gin, openapi.Deserialize, go-diameter, mongo) are trusted not to panic; members of peer answers are outside the quantifier; BER codec and file encoder panics are the subject of C04/C16/C03.",
     "DESIGN.md §4 C11")
 
+CLAIMED["C18"] = ("other",
+    "acquire/release (must-pass-through) rule on go/ssa for every Dial* result; call-graph reachability of go statements",
+    "Decides the structural cause of growth for histories of any length: every Diameter connection dialled in module code is closed on every path from the successful dial to a return (or returned / cached behind a dial-once test), and no go statement is reachable from a request handler - so a completed request leaves no connection and no module-started task behind. Counts at run time are not measured.",
+    "Trusted: go-diameter ends its per-connection reader/watchdog goroutines when the connection is closed.",
+    "DESIGN.md §4 C18")
+CLAIMED["C19"] = ("other",
+    "control-dependence slice for answer/request correlation; non-blocking-send rule on the handler closures (go/ssa Select/Send)",
+    "Decides two necessary conditions, not the timing: (R1) the success return of each Diameter client function is control-dependent on a comparison of an identifier of the decoded answer with the request's - today both clients violate it and are recorded as known findings (no sound small repair: the messages lack a request-unique identifier); (R2) the answer handlers hand the message over with a non-blocking send (or a per-request buffered channel), so a late answer cannot block the handler, the mux and hence the subscriber's next request - repaired by a fix commit and proven.",
+    "Fault sequences and delays are not enumerated; fairness of select and go-diameter's dispatch are trusted.",
+    "DESIGN.md §4 C19")
+
 # id -> reason, for properties not (yet) claimed
 NOT_APPLICABLE = {
 }
